@@ -96,6 +96,12 @@ Proof.
     + apply IH.
 Qed.
 
+Lemma peekArgBytes_Str h k : peekArgBytes h k = peekArgStr h k.
+Proof. induction h as [|kv r IH]; cbn [peekArgBytes peekArgStr]; [reflexivity|]. now rewrite IH. Qed.
+
+Lemma PeekBytes_Peek a k : PeekBytes a k = Peek a k.
+Proof. apply peekArgBytes_Str. Qed.
+
 (* every getter of the model is the multimap getter on the abstraction *)
 Lemma getters_abs a k :
   Peek a k = mm_peek (abs a) k /\ PeekMulti a k = mm_peek_multi (abs a) k /\ Has a k = mm_has (abs a) k
@@ -834,4 +840,47 @@ Lemma roundtrip_idem m : mm_roundtrip (mm_roundtrip m) = mm_roundtrip m.
 Proof.
   unfold mm_roundtrip. induction m as [|e r IH]; [reflexivity|]. cbn [filter].
   destruct (negb (both_empty e)) eqn:E; cbn [filter]; [rewrite E|]; now rewrite IH.
+Qed.
+
+(* ------------------------------------------------------------------ *)
+(* CopyTo                                                               *)
+(* ------------------------------------------------------------------ *)
+Definition norm_entry (e : entry) : entry := (e_key e, (if e_nov e then [] else e_val e), e_nov e).
+
+Lemma copy_loop_abs src : forall slots, map toE (fst (copy_loop slots src)) = map norm_entry (map toE src).
+Proof.
+  induction src as [|s sr IH]; intros slots; [reflexivity|]. cbn [copy_loop].
+  destruct slots as [|d rest].
+  - specialize (IH []). destruct (copy_loop [] sr) as [c sp]. cbn [fst map] in *. rewrite IH.
+    f_equal. unfold copyKV, toE, norm_entry. cbn. now destruct (kv_noValue s).
+  - specialize (IH rest). destruct (copy_loop rest sr) as [c sp]. cbn [fst map] in *. rewrite IH.
+    f_equal. unfold copyKV, toE, norm_entry. cbn. now destruct (kv_noValue s).
+Qed.
+
+(* whatever dst held (live or stale), after a.CopyTo(dst) it holds a's entries (values of noValue entries cleared) *)
+Theorem abs_CopyTo a dst : abs (CopyTo a dst) = map norm_entry (abs a).
+Proof.
+  unfold CopyTo, copyArgs, abs.
+  set (slots := if Nat.ltb _ _ then _ else _).
+  pose proof (copy_loop_abs (live a) slots) as H. destruct (copy_loop slots (live a)) as [c sp]. exact H.
+Qed.
+
+Lemma norm_inv h : Forall kv_ok h -> map norm_entry (map toE h) = map toE h.
+Proof.
+  induction 1 as [|kv r (Hk & Hv & Hn) Hr IH]; [reflexivity|]. cbn [map]. rewrite IH. f_equal.
+  unfold norm_entry, toE. cbn. destruct (kv_noValue kv) eqn:E; [|reflexivity]. now rewrite (Hn eq_refl).
+Qed.
+
+Theorem CopyTo_exact a dst : inv a -> abs (CopyTo a dst) = abs a.
+Proof. intros H. rewrite abs_CopyTo. now apply norm_inv. Qed.
+
+Lemma inv_CopyTo a dst : inv a -> inv (CopyTo a dst).
+Proof.
+  intros H. unfold inv, CopyTo, copyArgs. set (slots := if Nat.ltb _ _ then _ else _). clearbody slots.
+  revert slots. induction H as [|s sr (Hk & Hv & Hn) Hr IH]; intros slots; cbn [copy_loop live]; [constructor|].
+  destruct slots as [|d rest].
+  - specialize (IH []). destruct (copy_loop [] sr) as [c sp]. cbn [live] in *. constructor; [|exact IH].
+    unfold kv_ok, copyKV. cbn. destruct (kv_noValue s); repeat split; auto using wf_nil.
+  - specialize (IH rest). destruct (copy_loop rest sr) as [c sp]. cbn [live] in *. constructor; [|exact IH].
+    unfold kv_ok, copyKV. cbn. destruct (kv_noValue s); repeat split; auto using wf_nil.
 Qed.
